@@ -312,8 +312,8 @@ def plan(tier, seed):
                           "seed": f"{seed}:C03:r:{lo}"})
     specs.append({"mode": "ctor", "what": "grid", "seed": f"{seed}:C03:g"})
     specs.append({"mode": "txid", "n": 200000 if tier == "quick" else 400000})
-    for i in range(4 if tier == "quick" else 16):
-        specs.append({"mode": "wire", "seed": f"{seed}:C03:w:{i}", "n": 250 if tier == "quick" else 2500})
+    for i in range(4 if tier == "quick" else 32):
+        specs.append({"mode": "wire", "seed": f"{seed}:C03:w:{i}", "n": 250 if tier == "quick" else 8000})
     return specs
 
 
